@@ -194,7 +194,36 @@ func nontrivial(c *engine.Case, real *engine.Observed) bool {
 	return real != nil && real.Promises >= 2 && (real.Rounds >= 2 || len(real.Errors) > 0)
 }
 
+const findingNilKindErr = "F-02c-nil-slice-or-map-error-lost-through-promise"
+
+// classify attaches an open finding to a failing case. F-02c: some invocation answers through a
+// promise with an error whose dynamic value is a nil slice / nil map, and the very same case passes
+// once those errors are pointer-kind errors with the same message (nothing else is excused).
+func (h *harness) classify(c *engine.Case, v verdict) string {
+	if v.Class == "" || v.Class == "harness" || v.Class == "crash" {
+		return ""
+	}
+	d := c.Clone()
+	found := false
+	for _, f := range d.Invocations() {
+		if (f.ErrKind == "nilslice" || f.ErrKind == "nilmap") && f.Mode != "sync" {
+			found = true
+		}
+		if f.ErrKind == "nilslice" || f.ErrKind == "nilmap" {
+			f.ErrKind = "ptr"
+		}
+	}
+	if !found || h.judgeAsk(d).Class != "" {
+		return ""
+	}
+	return findingNilKindErr
+}
+
 func (h *harness) record(c *engine.Case, v verdict, source string) {
+	finding := h.classify(c, v)
+	if finding != "" {
+		h.run.Count("finding:" + finding)
+	}
 	b, _ := json.Marshal(c)
 	h.run.Case(string(b), nontrivial(c, v.Real))
 	if v.Real != nil {
@@ -212,12 +241,12 @@ func (h *harness) record(c *engine.Case, v verdict, source string) {
 		}
 	}
 	if c.CancelAt > 0 {
-		h.run.Oblige("context cancellation: no resolver called after the cancellation, `context canceled` only for fields whose resolver was not called, single-run oracles; the cancelled run = the model's run of the request with the fields reached after the cancellation failing synchronously", "oracle", 1, v.Class == "", v.What)
+		h.run.Oblige("context cancellation: no resolver called after the cancellation, `context canceled` only for fields whose resolver was not called, single-run oracles; the cancelled run = the model's run of the request with the fields reached after the cancellation failing synchronously", "oracle", 1, v.Class == "" || finding != "", v.What)
 	}
-	h.run.Oblige("executor correspondence (data, ordered errors, idle rounds, promises created) vs Lean ExecAsync", "correspondence", 1, v.Class != "correspondence", v.What)
-	h.run.Oblige("oracle: every schedule = all-sync run on data and required errors; no duplicate error; no blank/missing key; rounds ≤ promises; no crash", "oracle", 1, v.Class != "property" && v.Class != "crash", v.What)
+	h.run.Oblige("executor correspondence (data, ordered errors, idle rounds, promises created) vs Lean ExecAsync", "correspondence", 1, v.Class != "correspondence" || finding != "", v.What)
+	h.run.Oblige("oracle: every schedule = all-sync run on data and required errors; no duplicate error; no blank/missing key; rounds ≤ promises; no crash", "oracle", 1, (v.Class != "property" && v.Class != "crash") || finding != "", v.What)
 	if v.Model != nil && v.Model.HasSpec {
-		h.run.Oblige("Lean reference semantics (Spec.data, Spec.required ⊆ errors ⊆ Spec.errsF, every Spec.nulls position is a null of the data with an explaining error) vs the implementation's output", "correspondence", 1, !(v.Class == "correspondence" && v.Cat == "spec"), v.What)
+		h.run.Oblige("Lean reference semantics (Spec.data, Spec.required ⊆ errors ⊆ Spec.errsF, every Spec.nulls position is a null of the data with an explaining error) vs the implementation's output", "correspondence", 1, !(v.Class == "correspondence" && v.Cat == "spec") || finding != "", v.What)
 		h.run.Count(fmt.Sprintf("spec-nulls=%d", min(len(v.Model.SpecNulls), 4)))
 		for _, n := range v.Model.SpecNulls {
 			if len(n.Cands) > 1 {
@@ -237,7 +266,7 @@ func (h *harness) record(c *engine.Case, v verdict, source string) {
 	want := v.key()
 	h.failed[want]++
 	if h.failed[want] > 3 {
-		h.run.Violate(v.Class, fmt.Sprintf("%s: %s  [document %s]", v.Cat, v.What, c.Document()), "", v.Class == "correspondence", nil)
+		h.run.Violate(v.Class, fmt.Sprintf("%s: %s  [document %s]", v.Cat, v.What, c.Document()), finding, v.Class == "correspondence", nil)
 		return
 	}
 	small := engine.Shrink(c, want, func(d *engine.Case) string { return h.judgeAsk(d).key() })
@@ -255,7 +284,7 @@ func (h *harness) record(c *engine.Case, v verdict, source string) {
 	if sv.Model != nil {
 		replay["model"] = sv.Model.Line(false)
 	}
-	h.run.Violate(sv.Class, fmt.Sprintf("%s: %s  [document %s]", sv.Cat, sv.What, small.Document()), "", sv.Class == "correspondence", replay)
+	h.run.Violate(sv.Class, fmt.Sprintf("%s: %s  [document %s]", sv.Cat, sv.What, small.Document()), h.classify(small, sv), sv.Class == "correspondence", replay)
 }
 
 // batch judges many cases with one pipelined model exchange.
@@ -462,7 +491,7 @@ func (h *harness) random() {
 	for i := 0; i < n; i++ {
 		r := run.Rand.Fork()
 		o := engine.GenOpts{MaxDepth: r.Range(1, 3), MaxFields: r.Range(2, 4), MaxItems: 3, Mutation: r.Chance(1, 5)}
-		wo := engine.WorldOpts{PAsync: r.Range(2, 7), PFail: r.Range(0, 5), PNull: r.Range(0, 3), PBad: r.Range(0, 2), MaxItems: 3, ValueKindErrors: true}
+		wo := engine.WorldOpts{PAsync: r.Range(2, 7), PFail: r.Range(0, 5), PNull: r.Range(0, 3), PBad: r.Range(0, 2), MaxItems: 3, ValueKindErrors: true, NilKindErrors: true}
 		if r.Chance(1, 6) {
 			// wide selection sets: up to 5–12 distinct keys per set (shallower, fewer promises)
 			o.MaxDepth, o.MaxFields, o.MaxItems = r.Range(1, 2), r.Range(5, 12), 2
@@ -559,7 +588,7 @@ func main() {
 			}
 			fmt.Printf("verdict:        class=%q %s %s\n", v.Class, v.Cat, v.What)
 			if v.Class != "" {
-				run.Violate(v.Class, v.What, "", v.Class == "correspondence", map[string]any{"level": "executor", "case": &c})
+				run.Violate(v.Class, v.What, h.classify(&c, v), v.Class == "correspondence", map[string]any{"level": "executor", "case": &c})
 			}
 		}
 		run.Finish(h.model)
